@@ -248,6 +248,27 @@ Section Access.
   Definition ring_new (p : params) : list (list N) :=
     repeat [] (S (N.to_nat (window p))).
 
+  (** The pre-fill loop of [BvGraph::iter_from] over the ring:
+      [for node_id in start.saturating_sub(window)..start { backrefs.replace(node_id, successors(node_id)) }] *)
+  Fixpoint ring_prefill (p : params) (rafuel fuel : nat) (j k : N) (ring : list (list N))
+    : option (list (list N)) :=
+    match fuel with
+    | O => None
+    | S f =>
+      if k <=? j then Some ring
+      else
+        l <- ra_labels p rafuel j ;;
+        ring_prefill p rafuel f (j + 1) k (set_nth ring (ring_slot p j) l)
+    end.
+
+  (** [BvGraph::iter_from k] with the ring as the code has it *)
+  Definition iter_from_ring (p : params) (fuel : nat) (n : nat) (k : N)
+    : option (list (list N)) :=
+    s <- seek k ;;
+    ring <- ring_prefill p fuel fuel (k - N.min (window p) k) k (ring_new p) ;;
+    '(ls, _) <- ring_decode_nodes p (n - N.to_nat k) k ring s ;;
+    Some ls.
+
   (** the [next_successors] loop over a fresh [NodeLabels] *)
   Definition next_successors_all (p : params) (n : nat) (s : St) : option (list (list N)) :=
     '(ls, _) <- ring_decode_nodes p n 0 (ring_new p) s ;; Some ls.
@@ -272,6 +293,9 @@ Definition acc_outdegree le cs (offs : list N) (s : bits) (x : N) : option N :=
   ra_outdegree bits (rd_bits le cs) (seek_bits offs s) x.
 Definition acc_iter_from le cs p (offs : list N) (s : bits) (k : N) : option (list (list N)) :=
   iter_from bits (rd_bits le cs) (seek_bits offs s) p (length offs) (length offs - 1) k.
+Definition acc_iter_from_ring le cs p (offs : list N) (s : bits) (k : N)
+  : option (list (list N)) :=
+  iter_from_ring bits (rd_bits le cs) (seek_bits offs s) p (length offs) (length offs - 1) k.
 Definition acc_offdeg le cs p (n : nat) (s : bits) : option (list (N * N)) :=
   offdeg bits (rd_bits le cs) (pos_bits s) p n s.
 Definition acc_offdeg_from le cs p (offs : list N) (s : bits) (k : N) : option (list (N * N)) :=
